@@ -395,3 +395,18 @@ K('C06', 'mst-transform-drops-attribute', [(MST, "    newdom = Domain.fromdict(n
 T('C06', 'aim-total-under-genuine-flag', [(AIM, "        super(AIM, self).__init__(epsilon, delta, prng)", "        super(AIM, self).__init__(epsilon, delta, False, prng)"),
                                           (AIM, "        zeros = self.structural_zeros\n", "        zeros = self.structural_zeros\n        total = data.records if self.bounded else None\n"),
                                           (AIM, "        model = engine.estimate(measurements)\n\n        t = 0", "        model = engine.estimate(measurements, total)\n\n        t = 0")])
+
+# ------------------------------------------------------------------ C12 (structural clauses only)
+K('C12', 'triangulate-no-working-fill', [(JT, "            edges |= tmp\n            G.add_edges_from(tmp)\n            G.remove_node(node)", "            edges |= tmp\n            G.remove_node(node)")], 'elimination-fill-in')
+K('C12', 'tree-forest-for-disjoint', [(JT, "            wgt = len(set(c1) & set(c2))\n            complete.add_edge(c1, c2, weight=-wgt)", "            wgt = len(set(c1) & set(c2))\n            if wgt > 0:\n                complete.add_edge(c1, c2, weight=-wgt)")], 'tree-connected')
+K('C12', 'schedule-one-direction', [(JT, "        messages = [(a,b) for a,b in self.tree.edges()] + [(b,a) for a,b in self.tree.edges()]", "        messages = [(a,b) for a,b in self.tree.edges()]")], 'schedule')
+K('C12', 'schedule-dependency-includes-reverse', [(JT, "                if m1[1] == m2[0] and m1[0] != m2[1]:", "                if m1[1] == m2[0]:")], 'schedule')
+K('C12', 'schedule-not-sorted', [(JT, "        return list(nx.topological_sort(G)) ", "        return list(G.nodes()) ")], 'schedule')
+K('C12', 'schedule-drops-isolated-messages', [(JT, "        G.add_nodes_from(messages)\n        G.add_edges_from(edges)", "        G.add_edges_from(edges)")], 'schedule')
+K('C12', 'separator-union', [(JT, "        return { (i,j) : tuple(set(i)&set(j)) for i,j in self.mp_order() }", "        return { (i,j) : tuple(set(i)|set(j)) for i,j in self.mp_order() }")], 'separators')
+K('C12', 'cliques-of-model-graph', [(JT, "cliques = sorted([self.domain.canonical(c) for c in nx.find_cliques(tri)])", "cliques = sorted([self.domain.canonical(c) for c in nx.find_cliques(self.graph)])")], 'cliques-of-triangulation')
+K('C12', 'graph-skips-unmeasured-attrs', [(JT, "        G.add_nodes_from(self.domain.attrs)\n", "")], 'graph-from-cliques')
+K('C12', 'triangulate-given-order-ignored', [(JT, "        tri, cost = self._triangulated(order)", "        tri, cost = self._triangulated(self._greedy_order(stochastic=False)[0])")], 'order-modes')
+K('C12', 'triangulated-without-model-edges', [(JT, "        tri = nx.Graph(self.graph)\n        tri.add_edges_from(edges)", "        tri = nx.Graph()\n        tri.add_edges_from(edges)")], 'elimination-fill-in')
+T('C12', 'schedule-loop-vars-renamed', [(JT, "        for m1 in messages:\n            for m2 in messages:\n                if m1[1] == m2[0] and m1[0] != m2[1]:\n                    edges.add( (m1, m2) )", "        for u in messages:\n            for w in messages:\n                if u[1] == w[0] and u[0] != w[1]:\n                    edges.add( (u, w) )")])
+MUTANTS.append({'prop': 'C12', 'id': 'reformatted-tree', 'kind': 'T', 'edits': 'REFORMAT'})
